@@ -7,7 +7,7 @@ from ..prims import requires, guard_strs, guarded_any, must_pass
 EXPLANATION = ('Structural necessary conditions of packet-id management: every value the allocation cursor can take is 1 or cursor+1 below '
                'u16::MAX; ids are reserved only through a vacant map entry and the reserved key is what is returned and bound; both '
                'completion points release the id and both ack tables on every path where an id is bound; operation and packet ids are '
-               'written together; restarted operations are unbound; the id map is otherwise only cleared on session loss / reset.')
+               'written together; restarted operations are unbound; the id map is otherwise only cleared on session loss / reset. Added in round 2: an already transmitted publish never enters the user queue (whose members are unbound at CONNACK), so a retransmission keeps its identifier.')
 ASSUMPTIONS = ['not decided: leak-freedom and uniqueness over more than 65535 operations and all reconnect histories (only the per-site conditions)']
 P = 'src/protocol.rs'
 PS = 'protocol::ProtocolState'
@@ -154,7 +154,7 @@ def run(ctx):
     for m in prims.mutations(cc):
         if m.kind == 'mutcall' and prims.self_field(m.path) == 'user_operation_queue' and m.method in ('push_front', 'push_back') and guarded_any(cc, m.bb, [r'\.packet is Publish$']):
             nu += 1
-            ctx.ob(guarded_any(cc, m.bb, [r'^!.*\.packet@Publish\.0\.duplicate$']) and guarded_any(cc, m.bb, [r'^!Option::is_some\(.*\.qos2_pubrel\)$', r'^!\(.*\.qos == QualityOfService::ExactlyOnce\{\}\)$', r'\.qos2_pubrel is None$']),
+            ctx.ob(guarded_any(cc, m.bb, [r'^!.*\.packet@Publish\.0\.duplicate$']) and guarded_any(cc, m.bb, [r'^.*\.qos2_pubrel is None$', r'^!\(.*\.qos == QualityOfService::ExactlyOnce\{\}\)$', r'\.qos2_pubrel is None$']),
                    'an interrupted current publish returns to the user queue (where its id will be released) only when it is neither a retransmission nor in its PUBREL phase', 'keep-id|current|user', loc=m.loc())
     ctx.floor(nu, 1, 'user-queue re-queue sites of the current publish')
     dup_edges = prims.edge_nodes_matching(cc, [r'^[^!].*\.packet@Publish\.0\.duplicate$'])
